@@ -806,6 +806,9 @@ pub mod error;
 pub mod __macro_support {
     pub use crate::error::{ComparisonOp, ErrorReport, NodeKind, PatternNode, PlainOutputGuard};
 
+    #[cfg(assert_struct_verif)]
+    pub use crate::error::verif;
+
     // Re-export regex types for macro expansion when regex feature is enabled
     #[cfg(feature = "regex")]
     pub use regex::Regex;
